@@ -12,20 +12,20 @@ class Result:
 
 
 def deviation_costs(points, bounding):
-    """Cost of the choice taken at each point, and the cost a non-default alternative would have."""
+    """For each point: (cost of the choice taken, [cost of choosing alternative a] for a in range(n))."""
     out = []
     for p in points:
-        if p.kind == "env":
-            alt = p.cost
-            taken = p.cost if p.chosen != 0 else 0
+        if p.alt_costs is not None:
+            costs = list(p.alt_costs)
+        elif p.kind == "env":
+            costs = [0] + [p.cost] * (p.n - 1)
         elif bounding == "preempt":
             # switching away from a still-enabled running thread is a preemption; free otherwise
-            alt = 1 if p.running_enabled else 0
-            taken = alt if p.chosen != 0 else 0
+            c = 1 if p.running_enabled else 0
+            costs = [0] + [c] * (p.n - 1)
         else:  # delay bounding: every non-default choice costs 1
-            alt = 1
-            taken = 1 if p.chosen != 0 else 0
-        out.append((taken, alt))
+            costs = [0] + [1] * (p.n - 1)
+        out.append((costs[p.chosen], costs))
     return out
 
 
@@ -65,10 +65,9 @@ def explore(body, bound, bounding="delay", cap=None, on_exec=None, root=(), sche
         children = []
         for i in range(len(prefix), len(ex.points)):
             p = ex.points[i]
-            alt_cost = costs[i][1]
-            if spent_before[i] + alt_cost > bound:
-                continue
             for alt in range(1, p.n):
+                if spent_before[i] + costs[i][1][alt] > bound:
+                    continue
                 children.append((ex.choices[:i] + [alt], ns[:i + 1]))
         # push in reverse so that earlier / smaller alternatives are explored first
         for c in reversed(children):
